@@ -8,8 +8,8 @@ from vlib.verdict import Case
 
 PROPERTY = 'C19'
 MANIFEST = {
- 'level_text': 'Lean 4 theorems, kernel-checked, about a model of Irc.queueMsg/sendMsg/takeMsg/die/reset and IrcMsgQueue, for every interleaving of those calls with clock ticks, MOTD end, PONG, echo-message (un)acknowledgement and configuration changes, and for every chain of outFilters (arbitrary functions): multiset conservation (accepted = handed to the driver + dropped by a filter + lost + discarded by reset + still queued; refusal is an explicit False with no effect), fast queue first then the most urgent non-empty class and its head, per-class FIFO as list equations over whole histories (a rate-limited JOIN only moves to the back), a trace checker for throttle and JOIN-rate gaps that every trace passes plus its meaning spelled out, the driver is killed only with both queues empty once connected (after the repair of takeMsg), takeMsg satisfies the recursive equation of the code and a filter returning None consumes exactly its message, progress (clock past the limits => a take consumes a message) and a quitting bot drains in at most as many takes as messages wait and then closes; after the repair of the echo emulation (the echo is now a tagged copy; a re-queued IrcMsg object used to be swallowed by the assertion) nothing is lost and the conservation law holds in full (no_loss, conservation_full: for callers handing over any objects any number of times and filters returning their argument or a new message); the tagged objects are only the echo copies made by the bot. Server tags are part of message equality (duplicate refusal). Priority tables, the rate-limited command and the echo-emulated commands are re-extracted from /repo on every run and pinned by table lemmas. The model is tied to src/irclib.py by a differential run of seeded operation sequences on a real Irc object (return values, driver calls, filter log, discarded messages and the full queue/state dump after every operation), which also evaluates the property statement directly on the implementation to produce replays.',
- 'level_note': 'Trusted: Lean kernel; axioms propext/Classical.choice/Quot.sound only; harness/extractors/ircqueue.py; the correspondence harness (generator quality bounds what it sees); integer-valued virtual clock; stub driver whose reconnect() calls irc.reset() as SocketDriver.reconnect does; a second Irc stays registered so that _reallyDie does not clear the shared callback list. Modelled: IrcMsgQueue.enqueue/dequeue/__contains__/reset, Irc.queueMsg/sendMsg/takeMsg (fast queue, throttle, ping emission and ping time-out reconnect, outFilter chain with recursion on None, firewall on a raising filter, echo emulation tag/assert, zombie branch)/die/reset/_queueConnectMessages/_reallyDie (driver part), object identity of messages, server tags in message equality. Not modelled: _truncateMsg (the wire text of a message; C06), labeled-response labels, outFilters that call queueMsg/sendMsg themselves, the callbacks of real plugins (the Irc under test carries harness filter callbacks only), non-ASCII command upper-casing, negative or fractional rates, messages sent with sendMsg are outside the throttle/JOIN-rate claims (by design of the fast queue). Stated precondition of quit_drains: die() before the end of MOTD (afterConnect False) closes the connection at once by design.',
+ 'level_text': 'Lean 4 theorems, kernel-checked, about a model of Irc.queueMsg/sendMsg/takeMsg/die/reset and IrcMsgQueue, for every interleaving of those calls with clock ticks, MOTD end, PONG, echo-message (un)acknowledgement and configuration changes, and for every chain of outFilters (arbitrary functions): multiset conservation (accepted = handed to the driver + dropped by a filter + lost + discarded by reset + still queued; refusal is an explicit False with no effect), fast queue first then the most urgent non-empty class and its head, per-class FIFO as list equations over whole histories (a rate-limited JOIN only moves to the back), a trace checker for throttle and JOIN-rate gaps that every trace passes plus its meaning spelled out, the driver is killed only with both queues empty once connected (after the repair of takeMsg), takeMsg satisfies the recursive equation of the code and a filter returning None consumes exactly its message, progress (clock past the limits => a take consumes a message) and a quitting bot drains in at most as many takes as messages wait and then closes; after the repair of the echo emulation (the echo is now a tagged copy; a re-queued IrcMsg object used to be swallowed by the assertion) nothing is lost and the conservation law holds in full (no_loss, conservation_full: for callers handing over any objects any number of times and filters returning their argument or a new message); the tagged objects are only the echo copies made by the bot. Server tags are part of message equality (duplicate refusal). The labeled-response label is in the model as the first link of the chain (same object, one more server tag, never drops; delivered_is_labeled), so every theorem about arbitrary filter chains covers it. The ping time-out path is spelled out (ping_timeout_reconnects: nothing is returned, the driver reconnects, reset() clears both queues, forgets the unanswered PING and leaves exactly the registration messages, as new objects, in the fast queue; reset_starts_clean: the ping machinery is idle until the next end of MOTD, so a reconnect cannot trigger another; a dying bot queues nothing). Priority tables, the rate-limited command and the echo-emulated commands are re-extracted from /repo on every run and pinned by table lemmas. The model is tied to src/irclib.py by a differential run of seeded operation sequences on a real Irc object (return values, driver calls, filter log, discarded messages and the full queue/state dump after every operation), which also evaluates the property statement directly on the implementation to produce replays; a second stream drives the same Irc through the real drivers.Socket.SocketDriver on a fake socket (every takeMsg call the driver makes is compared with the model; the bytes on each connection must be exactly the messages takeMsg returned, each line at most 512 bytes and cut on a character boundary, every new connection starting with the registration) — which exposed and led to the repair of SocketDriver._sendIfMsgs (a message taken while the previous one was still buffered overwrote it).',
+ 'level_note': 'Trusted: Lean kernel; axioms propext/Classical.choice/Quot.sound only; harness/extractors/ircqueue.py; the correspondence harness (generator quality bounds what it sees); integer-valued virtual clock; stub driver whose reconnect() calls irc.reset() as SocketDriver.reconnect does; a second Irc stays registered so that _reallyDie does not clear the shared callback list. Modelled: IrcMsgQueue.enqueue/dequeue/__contains__/reset, Irc.queueMsg/sendMsg/takeMsg (fast queue, throttle, ping emission and ping time-out reconnect, outFilter chain with recursion on None, firewall on a raising filter, echo emulation tag/assert, zombie branch)/die/reset/_queueConnectMessages/_reallyDie (driver part), object identity of messages, server tags in message equality. the labeled-response label (makeLabel() is random: the model uses the fresh number of the link; only the presence of such a label is compared). Not modelled: _truncateMsg as a function (it rewrites only the cached wire text, not prefix/command/arguments; its 512-byte bound is proved in C12 and checked here on the socket of the real driver with over-long ASCII and multi-byte messages); the label written into an object that is queued twice at the same moment (aliasing: the model labels each queue entry separately); state.addMsg of outgoing messages (only under world.testing; the harness runs with world.testing False); outFilters that call queueMsg/sendMsg themselves (re-entrancy: with them takeMsg is no longer guaranteed to terminate — a filter that drops and queues recurses without bound — so the fuel argument of the model does not carry over), the callbacks of real plugins (the Irc under test carries harness filter callbacks only), non-ASCII command upper-casing, negative or fractional rates, messages sent with sendMsg are outside the throttle/JOIN-rate claims (by design of the fast queue). Stated precondition of quit_drains: die() before the end of MOTD (afterConnect False) closes the connection at once by design.',
  'technique': 'Lean 4 proof (induction over operation sequences with invariants) + table extraction + differential correspondence',
  'design_ref': 'DESIGN.md §6 C19',
 }
@@ -18,18 +18,20 @@ THEOREMS = ['C19.tables_ok', 'C19.classes_ok', 'C19.conservation', 'C19.conserva
             'C19.queueMsg_accepted', 'C19.priority', 'C19.fast_first', 'C19.fifo', 'C19.fifo_run',
             'C19.rates', 'C19.throttle_join_rate', 'C19.throttle_join_rate_fixed', 'C19.quit_drains',
             'C19.takeMsg_recursive', 'C19.filter_no_stall_fast', 'C19.filter_no_stall_queue',
-            'C19.lost_only_tagged', 'C19.tagged_are_echo_copies', 'C19.no_stall', 'C19.quit_completes']
+            'C19.lost_only_tagged', 'C19.tagged_are_echo_copies', 'C19.no_stall', 'C19.quit_completes',
+            'C19.ping_timeout_reconnects', 'C19.reset_starts_clean', 'C19.reset_zombie',
+            'C19.label_step', 'C19.delivered_is_labeled']
 TRUSTED = ['Lean 4.33.0 kernel; axioms ⊆ {propext, Classical.choice, Quot.sound}',
            'harness/extractors/ircqueue.py (_high, _low, rate-limited command, echo-emulated commands → Gen/IrcQueue.lean)',
            'harness/c19.py generators, instrumentation (virtual clock, stub driver, recording outFilter callbacks), canonicalisation; hex line protocol',
            'stub driver: reconnect() calls irc.reset() (as drivers.Socket.SocketDriver.reconnect(reset=True)); die() only records',
            'a second Irc object stays registered in world.ircs so that _reallyDie does not clear the shared callback list']
-RULE = ('seeded operation sequences (queue/send/take/tick/die/reset/connected/pong/capecho/cfg/filters) over all three priority '
+RULE = ('seeded operation sequences (queue/send/take/tick/die/reset/connected/pong/capecho/caplabel/cfg/filters) over all three priority '
         'classes, duplicates on/off, throttle and JOIN limits, dropping/raising/rewriting filters, followed by a drain phase; '
         'every sequence is run on a real irclib.Irc and on the Lean model and the per-operation observations are diffed. '
         'A case is non-trivial when it exercised at least one non-default branch (tags); distinct = distinct op sequence.')
 ASSUMPTIONS = ['Python asserts enabled', 'integer-valued clock, non-negative integer throttleTime / rateLimit.join',
-               'messages short enough not to be truncated; no server tags; labeled-response not negotiated',
+               'no object is in the queue twice while labeled-response is negotiated',
                'die() before afterConnect closes at once (by design; stated as hypothesis of quit_drains)']
 
 FINDING_REUSED = 'C19-reused-object-lost'     # repaired in /repo b0e0eea; kept as a class name only
